@@ -95,6 +95,16 @@ func concOps() []concOp {
 			return "ttml-indent:" + encBytes(b.Bytes())
 		},
 	)
+	ops = append(ops, func(seed uint64) string {
+		// two unrelated lists lose their styling; what is merged into one of them afterwards is none of the other's business
+		ga, gb, gx := randGraph(newRng(seed, "rs-a"), true, false), randGraph(newRng(seed, "rs-b"), true, false), randGraph(newRng(seed%7, "rs-x"), true, false)
+		a, b, x := ga.build(), gb.build(), gx.build()
+		b.RemoveStyling()
+		before := observeGraph(b).enc()
+		a.RemoveStyling()
+		a.Merge(x)
+		return "rs-merge:" + before + "|" + observeGraph(b).enc()
+	})
 	ops = append(ops, extraConcOps...)
 	return ops
 }
@@ -194,6 +204,11 @@ func init() {
 			// a different writer order each repetition
 			for k := 0; k < len(formats); k++ {
 				f := formats[(k*(rep%4+1)+rep)%len(formats)]
+				if rep%7 == 3 {
+					// a write that fails half way (full destination) must leave nothing behind for the next one
+					fw := &faultWriter{cap: 10 + rep}
+					writeRaw(f, s, fw)
+				}
 				out := write(f)
 				if prev, ok := first[f]; ok && prev != out {
 					return "diff bytes " + f
